@@ -67,7 +67,8 @@ func c18Request(sec *c18Secrets) (*request.CreateRequest, map[string]any) {
 	case 1: // milvus, token
 		raw["milvus_connect_param"] = map[string]any{"uri": c18T1, spell("token"): sec.add("milvus-token")}
 	case 2: // kafka with SASL
-		raw["kafka_connect_param"] = map[string]any{"address": "k:9092", "topic": "t", "enable_sasl": true,
+		// the sasl block may be filled in while enable_sasl is off: the record keeps it all the same
+		raw["kafka_connect_param"] = map[string]any{"address": "k:9092", "topic": "t", "enable_sasl": vBool("kafka.enableSASL"),
 			"sasl": map[string]any{spell("username"): sec.add("sasl-username"), spell("password"): sec.add("sasl-password"), "mechanisms": "PLAIN"}}
 	}
 	return req, raw
